@@ -16,13 +16,15 @@ open RbModel.Gen.Arabic (stateTable features contextLength)
 
 /-! ## generated constants agree with the model and the spec -/
 
-/-- `arabic_action_t::{ISOL,…,NONE}`, the discriminants of `hb_arabic_joining_type_t`, and
-    `ARABIC_FEATURES[action]` = the OpenType feature of the spec's form with that action number. -/
+/-- `arabic_action_t::{ISOL,…,NONE}`, the discriminants of `hb_arabic_joining_type_t`,
+    `ARABIC_FEATURES[action]` = the OpenType feature of the spec's form with that action number, and
+    the number of context characters the buffer keeps on each side (the property speaks of 5). -/
 theorem C11_consts :
     RbModel.Gen.Arabic.actionValues = [ISOL, FINA, FIN2, FIN3, MEDI, MED2, INIT, NONE]
     ∧ RbModel.Gen.Arabic.jtypeValues = JoiningType.all.map JoiningType.toNat
     ∧ (∀ f ∈ [Form.isol, .fina, .fin2, .fin3, .medi, .med2, .init], features[toAction f]? = f.tag)
-    ∧ features.length = NONE := by decide
+    ∧ features.length = NONE
+    ∧ contextLength = 5 := by decide
 
 /-- the general categories that turn a character without table entry into a transparent one -/
 theorem C11_transparent_gcs : ∀ gc ∈ List.range 30,
